@@ -1,35 +1,23 @@
 // ---- shim for src/histogram/{grid,histograms}.rs ------------------------------------------------------
-// Grid: data declaration + *assumed* contracts of the iterator-chain methods (Grid::shape, Grid::index_of are
-// outside Verus; they are enumerated on the real crate by enum:bins / enum:histogram).
-pub struct Grid<A: Ord> { pub projections: Vec<Bins<A>> }
-
-pub open spec fn bins_len<A: Ord>(b: Bins<A>) -> int { if b.edges.edges@.len() == 0 { 0 } else { b.edges.edges@.len() - 1 } }
-pub open spec fn grid_wf<A: Ord>(g: Grid<A>) -> bool { forall|j: int| 0 <= j < g.projections@.len() ==> edges_wf(#[trigger] g.projections@[j].edges) }
-// the point `p` lies in the bin with index tuple `idx`
-pub open spec fn in_cell<A: Ord>(g: Grid<A>, idx: Seq<usize>, p: Seq<A>) -> bool {
-    &&& idx.len() == g.projections@.len()
-    &&& p.len() == g.projections@.len()
-    &&& forall|j: int| 0 <= j < idx.len() ==> in_bin(#[trigger] g.projections@[j].edges.edges@, idx[j] as int, p[j])
-}
-pub open spec fn in_shape(idx: Seq<usize>, shape: Seq<usize>) -> bool {
-    idx.len() == shape.len() && forall|j: int| 0 <= j < idx.len() ==> #[trigger] idx[j] < shape[j]
-}
-pub open spec fn shape_matches<A: Ord>(shape: Seq<usize>, g: Grid<A>) -> bool { shape.len() == g.projections@.len() && forall|j: int| 0 <= j < shape.len() ==> #[trigger] shape[j] as int == bins_len(g.projections@[j]) }
-
+// Grid::{ndim, shape, index_of}: contracts *proved in unit `grid`* on the extracted bodies (the driver checks that the
+// contract text here and there is the same); here they are callee contracts.
 impl<A: Ord> Grid<A> {
     #[verifier::external_body]
-    pub fn ndim(&self) -> (n: usize) ensures n == self.projections@.len()
+    pub fn ndim(&self) -> (n: usize)
+        ensures n == self.projections@.len(),
     { unimplemented!() }
 
-    // assumed: the shape is the number of bins of every axis
+    // the shape is the number of bins of every axis
     #[verifier::external_body]
-    pub fn shape(&self) -> (r: Vec<usize>) ensures shape_matches(r@, *self)
+    pub fn shape(&self) -> (r: Vec<usize>)
+        ensures shape_matches(r@, *self),
     { unimplemented!() }
 
-    // assumed: per-axis lookup, None as soon as one coordinate has no bin (panics on a dimension mismatch)
+    // per-axis lookup, None as soon as one coordinate has no bin (panics on a dimension mismatch)
     #[verifier::external_body]
     pub fn index_of(&self, point: &Lane<A>) -> (r: Option<Vec<usize>>)
-        requires point@.len() == self.projections@.len()
+        requires point@.len() == self.projections@.len(),
+            lawful_ord::<A>(), grid_wf(*self),
         ensures
             r matches Some(idx) ==> in_cell(*self, idx@, point@),
             r is None ==> forall|idx: Seq<usize>| !in_cell(*self, idx, point@),
